@@ -10,7 +10,7 @@ COMMON_T = [
 
 PROPS = {
     "C01": {
-        "units": ["ident", "idna", "x509", "storage"],
+        "units": ["ident", "idna", "x509", "storage", "issue"],
         "design_ref": "DESIGN.md section 5 C01",
         "technique": "Verus function contracts: normalisation label by label, newOrder payload element by element, CSR through a ghost view of the OpenSSL request builder",
         "text": "Deductive proof that configured DNS identifiers are stored as lower-case A-labels label by label (wildcard label kept) and IP "
@@ -21,11 +21,11 @@ PROPS = {
         "assumptions": [
             "T: OpenSSL builds the request its builder calls describe; str::to_lowercase / is_ascii / punycode / IpAddr parsing are uninterpreted functions",
             "T: HashMap iteration yields every entry once (pairs_of)",
-            "X: how request_certificate wires these together (which list is split into dns/ip, which key is passed) - unit `issue` when built; DER contents as a CA parser sees them",
+            "X: DER contents as a CA parser sees them; that the closure asserted on is the one handed to the request (same variable, adjacent statement)",
         ],
     },
     "C02": {
-        "units": ["storage", "http"],
+        "units": ["storage", "http", "issue"],
         "design_ref": "DESIGN.md section 5 C02",
         "technique": "Verus function contracts over a ghost file-system map (POSIX open/write semantics in the trusted shim)",
         "text": "Deductive proof that write_file leaves exactly the given bytes in the target file for every previous content "
@@ -38,7 +38,7 @@ PROPS = {
         ],
     },
     "C10": {
-        "units": ["hooks", "config", "storage", "schedule"],
+        "units": ["hooks", "config", "storage", "schedule", "issue"],
         "design_ref": "DESIGN.md section 5 C10",
         "technique": "Verus function contracts over a ghost sequence of spawned processes; recursive spec for group expansion; ghost event trace for the file-write bracket",
         "text": "Deductive proof that hooks::call spawns exactly the hooks whose type list contains the event type, in declaration order, "
@@ -151,8 +151,23 @@ PROPS = {
             "X: totality of the whole start-up path; hangs in general",
         ],
     },
+    "C03": {
+        "units": ["issue", "storage"],
+        "design_ref": "DESIGN.md section 5 C03",
+        "technique": "Verus call-site preconditions on the two writes of an issuance (key file, certificate file) over a ghost world; errors propagate",
+        "text": "Deductive proof over the whole of request_certificate (macros expanded) that a failed attempt never writes the certificate file, "
+                "that the certificate file is written only with the body of the download and only as the last step, that the only key write is the "
+                "one of get_key_pair and that the key handed to the CSR is the key in the key file. Two obligations of the property fail on the "
+                "code as written and are recorded as known findings: the new key is written before the order is finalised, and the downloaded body "
+                "is written without being parsed or matched against the key.",
+        "assumptions": [
+            "T: every callee of request_certificate is a contract here (http wrappers, hooks, synchronize, Csr::new, get_key_pair, write_certificate); their own contracts are proved in their units where they have one",
+            "T-ASYNC: lock guards are plain accessors; interleavings with other tasks are not covered (C12)",
+            "X: crash consistency; the content of a non-PEM body (second known finding)",
+        ],
+    },
     "C04": {
-        "units": ["jws", "http", "keys"],
+        "units": ["jws", "http", "keys", "issue"],
         "design_ref": "DESIGN.md section 5 C04",
         "technique": "Verus function contracts: JWS structure as a spec predicate over uninterpreted base64url/serialisation/signature relations; nonce and URL binding as preconditions of the transmission",
         "text": "Deductive proof that encode_jwk/encode_kid/encode_kid_mac produce the flattened JWS of RFC 7515 with exactly the header "
@@ -167,7 +182,7 @@ PROPS = {
         ],
     },
     "C05": {
-        "units": ["chalproof", "schedule", "ident"],
+        "units": ["chalproof", "schedule", "ident", "issue"],
         "design_ref": "DESIGN.md section 5 C05",
         "technique": "Verus function contracts: proof strings against RFC 8555 section 8 / RFC 8737 texts pinned in the contract; entry lookup against a spec function of (identifier, wildcard flag)",
         "text": "Deductive proof that the key authorization is token.base64url(SHA-256(thumbprint input)), that http-01 / dns-01 / tls-alpn-01 "
@@ -178,8 +193,7 @@ PROPS = {
         "assumptions": [
             "T: SHA-256, base64url, UTF-8 and the JSON text of the thumbprint JWK are uninterpreted functions; `{}` of 31 is \"31\", `{:02x}` of 4 and 32 are \"04\" and \"20\" (axiom_number_texts); SHA-256 yields 32 bytes",
             "T: Display of Challenge prints the RFC names (table in acme_proto.rs, assumed); set_env has the documented precedence (assumed here)",
-            "X: the order of events inside request_certificate (POST only after the hooks succeeded, no hook for a valid authorization) - unit `issue` when built; "
-            "the reverse-DNS text for IP identifiers (get_tls_alpn_name: iterator chain through format!, not under contract)",
+            "X: the reverse-DNS text for IP identifiers (get_tls_alpn_name: iterator chain through format!, not under contract)",
         ],
     },
     "C06": {
@@ -196,7 +210,7 @@ PROPS = {
         ],
     },
     "C07": {
-        "units": ["renew", "schedule"],
+        "units": ["renew", "schedule", "issue"],
         "design_ref": "DESIGN.md section 5 C07",
         "technique": "Verus function contracts over ghost counters (requests, post-operation runs, time slept since the last request)",
         "text": "Deductive proof that one task step performs exactly one request and exactly one post-operation hook run, reports success iff "
